@@ -813,7 +813,8 @@ class PDFPageInterpreter:
             n = 1
 
         if n == 1:
-            gray = self.pop(1)[0]
+            values = self.pop(1)
+            gray = values[0] if values else None
             gray_f = safe_float(gray)
             if gray_f is None:
                 log.warning(
@@ -824,7 +825,7 @@ class PDFPageInterpreter:
 
         elif n == 3:
             values = self.pop(3)
-            rgb = safe_rgb(*values)
+            rgb = safe_rgb(*values) if len(values) == 3 else None
             if rgb is None:
                 log.warning(
                     f"Cannot set RGB stroke color because not all values in {values!r} can be parsed as floats"
@@ -834,7 +835,7 @@ class PDFPageInterpreter:
 
         elif n == 4:
             values = self.pop(4)
-            cmyk = safe_cmyk(*values)
+            cmyk = safe_cmyk(*values) if len(values) == 4 else None
 
             if cmyk is None:
                 log.warning(
@@ -858,7 +859,8 @@ class PDFPageInterpreter:
             n = 1
 
         if n == 1:
-            gray = self.pop(1)[0]
+            values = self.pop(1)
+            gray = values[0] if values else None
             gray_f = safe_float(gray)
             if gray_f is None:
                 log.warning(
@@ -869,7 +871,7 @@ class PDFPageInterpreter:
 
         elif n == 3:
             values = self.pop(3)
-            rgb = safe_rgb(*values)
+            rgb = safe_rgb(*values) if len(values) == 3 else None
 
             if rgb is None:
                 log.warning(
@@ -880,7 +882,7 @@ class PDFPageInterpreter:
 
         elif n == 4:
             values = self.pop(4)
-            cmyk = safe_cmyk(*values)
+            cmyk = safe_cmyk(*values) if len(values) == 4 else None
 
             if cmyk is None:
                 log.warning(
